@@ -49,6 +49,8 @@ func main() {
 					cases = append(cases, g.optCase(i))
 				case "dist":
 					cases = append(cases, g.distCase(i))
+				case "dnest":
+					cases = append(cases, g.dnestCase(i))
 				case "sequence", "concurrent":
 					cases = append(cases, g.multiCase(i, *prof))
 				case "extreme":
